@@ -194,6 +194,20 @@ func (p *Path) call(caller *frame, fnv Value, args []Value) Value {
 	panic(engineError{fmt.Sprintf("cannot call %T", fnv)})
 }
 
+var noopPkgPrefixes = []string{
+	"go.uber.org/zap", "github.com/prometheus/client_golang", "github.com/VictoriaMetrics/metrics",
+	"github.com/armon/go-metrics", "github.com/prometheus/client_model",
+}
+
+func noopPkg(path string) bool {
+	for _, p := range noopPkgPrefixes {
+		if path == p || strings.HasPrefix(path, p+"/") {
+			return true
+		}
+	}
+	return false
+}
+
 func funcName(fn *ssa.Function) string {
 	return fn.String()
 }
@@ -218,12 +232,9 @@ func (p *Path) callSSA(caller *frame, fn *ssa.Function, args []Value, env []Valu
 		}
 	}
 	if fn.Blocks == nil {
-		if fn.Pkg != nil {
-			fn.Pkg.Build()
-		}
-		if fn.Blocks == nil {
-			panic(unsupported{"no body for function: " + name})
-		}
+		// interpreted packages are built eagerly at load time (building
+		// lazily would race with other workers reading the blocks)
+		panic(unsupported{"no body for function: " + name})
 	}
 	pkgPath := ""
 	if pk := fn.Package(); pk != nil {
@@ -239,6 +250,14 @@ func (p *Path) callSSA(caller *frame, fn *ssa.Function, args []Value, env []Valu
 		}
 	}
 	if pkgPath != "" && !p.eng.allowedPkg(pkgPath) && fn.Synthetic == "" {
+		if noopPkg(pkgPath) {
+			// M7: logging / metrics: no effect, zero results
+			res := fn.Signature.Results()
+			if res.Len() == 0 {
+				return nil
+			}
+			return p.zero(res)
+		}
 		panic(unsupported{"callee outside interpreted packages (no model): " + name})
 	}
 	if pkgPath != "" && fn.Synthetic != "package initializer" {
@@ -567,6 +586,7 @@ func (p *Path) visitInstr(fr *frame, instr ssa.Instruction) int {
 		succ := 1
 		if !c.IsConst() {
 			fr.countSymbolicBranch()
+			p.site = fr
 		}
 		if p.branch(c) {
 			succ = 0
@@ -603,12 +623,8 @@ func (p *Path) visitInstr(fr *frame, instr ssa.Instruction) int {
 	case *ssa.MakeSlice:
 		tElt := instr.Type().Underlying().(*types.Slice).Elem()
 		lv, cv := fr.get(instr.Len), fr.get(instr.Cap)
-		if bl, ok := lv.(*Term); ok && !bl.IsConst() {
-			fr.env[instr] = p.makeSymSlice(tElt, bl, cv)
-			break
-		}
-		n := p.concreteInt(lv, "make len")
-		c := p.concreteInt(cv, "make cap")
+		n := p.enumerate(lv, "make len")
+		c := p.enumerate(cv, "make cap")
 		if n < 0 || c < n {
 			p.goPanicRuntime("makeslice: len out of range")
 		}
